@@ -199,7 +199,7 @@ def with_create_id(docs, ids, rng):
 
 def run_c09(tier, seed):
     oc = Outcome('C09')
-    n_hist = 250 if tier == 'quick' else 2500
+    n_hist = 250 if tier == 'quick' else 6000
     hists = hist_run.run_histories([seed * 7919 + 13 * k for k in range(n_hist)],
                                    max_steps=10 if tier == 'quick' else 30)
     jobs = []
@@ -272,7 +272,7 @@ def run_c10(tier, seed):
     oc = Outcome('C10')
     rng = random.Random(seed * 31 + 5)
     max_perm_len = 5 if tier == 'quick' else 7
-    n_hist = 40 if tier == 'quick' else 120
+    n_hist = 40 if tier == 'quick' else 200
     hists = hist_run.run_histories([seed * 104729 + 17 * k for k in range(n_hist)], max_steps=max_perm_len - 1)
     from . import impl
     for hi, h in enumerate(hists):
